@@ -16,7 +16,7 @@ PROP = {
             "sarif-file) x (--severity none/error/warn/info/hint) x (--warnings-as-errors on/off), each run repeated; distinct = FNV(workspace, flags); "
             "non-trivial = the reference has >= 2 diagnostics",
     "min_nontrivial": {"quick": 40, "thorough": 2000},
-    "max_secs": {"quick": 60, "thorough": 1000},
+    "max_secs": {"quick": 600, "thorough": 1500},
     "require_clauses": ["exit-status", "severity-filter", "warnings-as-errors", "format:text", "format:json", "format:sarif", "format:json-file", "format:sarif-file"],
     "assumptions": COMMON_ASSUME + [
         "reference diagnostics = in-process EmmyLuaAnalysis over the generator's own file manifest with the same .emmyrc.json; computed twice with fresh "
